@@ -273,10 +273,10 @@ Proof.
   - (* sweep *)
     unfold sweep.
     pose proof (sweep_loop_inv d pin (clamp0 s) (clamp0 e) (Z.max 1 (c_int steps))
-                  (inject_Z (c_ulong neg dq) / inject_Z (Z.max 1 (c_int steps)))%Q
+                  (inject_Z (f32z (c_ulong neg dq)) / inject_Z (Z.max 1 (c_int steps)))%Q
                   (Z.to_nat (Z.max 1 (c_int steps))) 0 st b lt H) as Hl.
     destruct (sweep_loop pin (clamp0 s) (clamp0 e) (Z.max 1 (c_int steps))
-                (inject_Z (c_ulong neg dq) / inject_Z (Z.max 1 (c_int steps)))%Q
+                (inject_Z (f32z (c_ulong neg dq)) / inject_Z (Z.max 1 (c_int steps)))%Q
                 (Z.to_nat (Z.max 1 (c_int steps))) 0 st) as [st1 e1] eqn:El.
     cbn [fst snd] in *.
     rewrite sounding_from_app, last_tone_from_app. cbn [sounding_from last_tone_from].
@@ -369,7 +369,7 @@ Proof.
     rewrite Z2Nat.id in Hn by lia. lia.
   - unfold sweep.
     destruct (sweep_loop pin (clamp0 s) (clamp0 e) (Z.max 1 (c_int steps))
-                (inject_Z (c_ulong neg dq) / inject_Z (Z.max 1 (c_int steps)))%Q
+                (inject_Z (f32z (c_ulong neg dq)) / inject_Z (Z.max 1 (c_int steps)))%Q
                 (Z.to_nat (Z.max 1 (c_int steps))) 0 st) as [st1 e1].
     reflexivity.
   - unfold melody. cbn in Hg. destruct (tlookup name tbl) as [[t0 seq]|]; [|discriminate].
@@ -459,11 +459,11 @@ Proof.
   - unfold beep. apply beep_loop_nonpos. apply clamp0_nonpos. exact H.
   - unfold sweep. apply andb_true_iff in H as [Hs He].
     destruct (sweep_loop_nonpos pin (clamp0 s) (clamp0 e) (Z.max 1 (c_int steps))
-                (inject_Z (c_ulong neg dq) / inject_Z (Z.max 1 (c_int steps)))%Q
+                (inject_Z (f32z (c_ulong neg dq)) / inject_Z (Z.max 1 (c_int steps)))%Q
                 (Z.to_nat (Z.max 1 (c_int steps))) 0 st
                 (clamp0_nonpos_eq0 s Hs) (clamp0_nonpos_eq0 e He)) as [Ht Hl].
     destruct (sweep_loop pin (clamp0 s) (clamp0 e) (Z.max 1 (c_int steps))
-                (inject_Z (c_ulong neg dq) / inject_Z (Z.max 1 (c_int steps)))%Q
+                (inject_Z (f32z (c_ulong neg dq)) / inject_Z (Z.max 1 (c_int steps)))%Q
                 (Z.to_nat (Z.max 1 (c_int steps))) 0 st) as [st1 e1].
     cbn [fst snd] in *. rewrite tones_app, Ht. cbn. split; [reflexivity|exact Hl].
 Qed.
@@ -565,10 +565,10 @@ Section EventInvariant.
     - unfold beep. apply beep_loop_all.
     - unfold sweep.
       pose proof (sweep_loop_all (clamp0 s) (clamp0 e) (Z.max 1 (c_int steps))
-                   (inject_Z (c_ulong neg dq) / inject_Z (Z.max 1 (c_int steps)))%Q
+                   (inject_Z (f32z (c_ulong neg dq)) / inject_Z (Z.max 1 (c_int steps)))%Q
                    (Z.to_nat (Z.max 1 (c_int steps))) 0 st) as Hl.
       destruct (sweep_loop pin (clamp0 s) (clamp0 e) (Z.max 1 (c_int steps))
-                  (inject_Z (c_ulong neg dq) / inject_Z (Z.max 1 (c_int steps)))%Q
+                  (inject_Z (f32z (c_ulong neg dq)) / inject_Z (Z.max 1 (c_int steps)))%Q
                   (Z.to_nat (Z.max 1 (c_int steps))) 0 st) as [st1 e1].
       cbn [fst snd] in *. fa.
     - unfold melody. destruct (tlookup name tbl) as [[t0 seq]|]; [|constructor].
@@ -871,11 +871,11 @@ Lemma sweep_tones pin neg tbl st s e d steps :
 Proof.
   cbn [dstep]. unfold sweep, sweep_freqs.
   pose proof (sweep_loop_tones pin (clamp0 s) (clamp0 e) (Z.max 1 (c_int steps))
-               (inject_Z (c_ulong neg d) / inject_Z (Z.max 1 (c_int steps)))%Q
+               (inject_Z (f32z (c_ulong neg d)) / inject_Z (Z.max 1 (c_int steps)))%Q
                (Z.to_nat (Z.max 1 (c_int steps))) 0%nat st) as Hl.
   change (Z.of_nat 0) with 0 in Hl.
   destruct (sweep_loop pin (clamp0 s) (clamp0 e) (Z.max 1 (c_int steps))
-              (inject_Z (c_ulong neg d) / inject_Z (Z.max 1 (c_int steps)))%Q
+              (inject_Z (f32z (c_ulong neg d)) / inject_Z (Z.max 1 (c_int steps)))%Q
               (Z.to_nat (Z.max 1 (c_int steps))) 0 st) as [st1 e1].
   cbn [fst snd] in *. rewrite tones_app, Hl. cbn. rewrite app_nil_r. reflexivity.
 Qed.
@@ -1070,14 +1070,14 @@ Qed.
 Lemma sweep_delay_sum pin neg tbl st s e d steps :
   delay_sum (snd (dstep pin neg tbl st (Sweep s e d steps))) =
   Z.max 1 (c_int steps) *
-  delay_sum (qdelay (inject_Z (c_ulong neg d) / inject_Z (Z.max 1 (c_int steps)))).
+  delay_sum (qdelay (inject_Z (f32z (c_ulong neg d)) / inject_Z (Z.max 1 (c_int steps)))).
 Proof.
   cbn [dstep]. unfold sweep.
   pose proof (sweep_loop_delays pin (clamp0 s) (clamp0 e) (Z.max 1 (c_int steps))
-               (inject_Z (c_ulong neg d) / inject_Z (Z.max 1 (c_int steps)))%Q
+               (inject_Z (f32z (c_ulong neg d)) / inject_Z (Z.max 1 (c_int steps)))%Q
                (Z.to_nat (Z.max 1 (c_int steps))) 0 st) as Hl.
   destruct (sweep_loop pin (clamp0 s) (clamp0 e) (Z.max 1 (c_int steps))
-              (inject_Z (c_ulong neg d) / inject_Z (Z.max 1 (c_int steps)))%Q
+              (inject_Z (f32z (c_ulong neg d)) / inject_Z (Z.max 1 (c_int steps)))%Q
               (Z.to_nat (Z.max 1 (c_int steps))) 0 st) as [st1 e1].
   cbn [fst snd] in *. rewrite delay_sum_app, Hl. unfold delay_sum at 2. cbn. rewrite Z2Nat.id by lia. lia.
 Qed.
@@ -1087,6 +1087,9 @@ Proof.
   intro H. unfold c_ulong. rewrite H. split; [reflexivity|].
   apply qle_true in H. change 0 with (Qfloor 0). apply Qfloor_resp_le. exact H.
 Qed.
+
+Lemma f32z_small n : n < 2 ^ 24 -> f32z n = n.
+Proof. intro H. unfold f32z. apply Z.ltb_lt in H. rewrite H. reflexivity. Qed.
 
 Lemma filter_len_le {A} (f : A -> bool) l : (length (filter f l) <= length l)%nat.
 Proof. induction l as [|a l IH]; cbn; [lia|]. destruct (f a); cbn; lia. Qed.
@@ -1107,8 +1110,10 @@ Lemma sweep_protocol : forall pin neg tbl st s e d steps,
   (* first = start when steps > 1; last = end *)
   (1 < n -> qlt q0 s = true -> hd 0 (tones tr) = tone_of s) /\
   (qlt q0 e = true -> last (tones tr) 0 = tone_of e) /\
-  (* the delays never add up to more than the given duration *)
-  (qle q0 d = true -> delay_sum tr <= Qfloor d /\ (inject_Z (delay_sum tr) <= d)%Q) /\
+  (* the delays never add up to more than the given duration - as long as the duration is exactly
+     representable as a float (below 2^24 ms); see sweep_float_duration_refuted *)
+  (qle q0 d = true -> Qfloor d < 2 ^ 24 ->
+     delay_sum tr <= Qfloor d /\ (inject_Z (delay_sum tr) <= d)%Q) /\
   (* and the call ends with noTone *)
   sounding_from true tr = false.
 Proof.
@@ -1136,14 +1141,14 @@ Proof.
   { intro He. rewrite Ht. rewrite (clamp0_pos e He).
     rewrite (sweep_last_tone (clamp0 s) e n Hn); rewrite (clamp0_pos e He); [reflexivity|exact He]. }
   split.
-  { intro Hd. destruct (c_ulong_nonneg neg d Hd) as [Hc Hp].
+  { intros Hd Hsmall. destruct (c_ulong_nonneg neg d Hd) as [Hc Hp].
     assert (Hb : delay_sum tr <= Qfloor d).
-    { subst tr. rewrite sweep_delay_sum, Hc. apply step_delay_bound; assumption. }
+    { subst tr. rewrite sweep_delay_sum, Hc, (f32z_small _ Hsmall). apply step_delay_bound; assumption. }
     split; [exact Hb|].
     eapply Qle_trans; [|apply Qfloor_le]. rewrite <- Zle_Qle. exact Hb. }
   subst tr. cbn [dstep]. unfold sweep.
   destruct (sweep_loop pin (clamp0 s) (clamp0 e) (Z.max 1 (c_int steps))
-              (inject_Z (c_ulong neg d) / inject_Z (Z.max 1 (c_int steps)))%Q
+              (inject_Z (f32z (c_ulong neg d)) / inject_Z (Z.max 1 (c_int steps)))%Q
               (Z.to_nat (Z.max 1 (c_int steps))) 0 st) as [st1 e1].
   cbn [snd]. rewrite sounding_from_app. reflexivity.
 Qed.
@@ -1157,6 +1162,17 @@ Lemma sweep_negative_duration_refuted :
 Proof.
   exists 8, [], (init (Qmake 440 1)), (Qmake 440 1), (Qmake 880 1), (Qmake (-1) 1), (Qmake 2 1).
   split; [reflexivity|]. vm_compute. reflexivity.
+Qed.
+
+(* a duration of 2^24 ms or more is first rounded to a float: sweep(440, 880, 16777219, steps=1) waits
+   16777220 ms, one more than it was given *)
+Lemma sweep_float_duration_refuted :
+  exists pin neg tbl st s e d steps,
+    qle q0 d = true /\
+    Qfloor d < delay_sum (snd (dstep pin neg tbl st (Sweep s e d steps))).
+Proof.
+  exists 8, neg_literal, [], (init (Qmake 440 1)), (Qmake 440 1), (Qmake 880 1), (Qmake 16777219 1), (Qmake 1 1).
+  vm_compute. split; reflexivity.
 Qed.
 
 (* steps <= 0 is clamped to 1: one tone is played although `steps` says none *)
